@@ -238,7 +238,7 @@ SizeOf(env, i) ==
                           ELSE IF a.c <= 0 THEN E(Err("range"))
                           ELSE IF env.symb \/ adr.u # {} THEN D ELSE N(Mod(-adr.c, a.c))
       [] s.k = "ascii"  -> N(Len(s.bs))
-      [] s.k = "asciic" -> N(ChunksLen(s.cs))          \* one byte per <expr> chunk, whatever its value
+      [] s.k = "asciic" -> N(ChunksLen(s.cs) + (IF "z" \in DOMAIN s THEN 1 ELSE 0))     \* one byte per <expr> chunk, whatever its value; 'z': .asciz
       [] s.k = "insert" -> N(s.len)
       [] s.k = "skip"   -> \* `. = E` once the base is set: move forward to E, zero-filling
             IF env.symb THEN D
@@ -351,8 +351,9 @@ ItemBytes(env, sizes, i) ==
       [] s.k = "word"  -> IF a % 2 = 1 THEN Bad(<<0>> \o DataBytes(env, i, 2).bs, FALSE) ELSE DataBytes(env, i, 2)
       [] s.k = "dword" -> IF a % 2 = 1 THEN Bad(<<0>> \o DataBytes(env, i, 4).bs, FALSE) ELSE DataBytes(env, i, 4)
       [] s.k = "ascii" -> Plain(s.bs)
-      [] s.k = "asciic" -> Cat([q \in DOMAIN s.cs |->
-                                 IF "q" \in DOMAIN s.cs[q] THEN Plain(s.cs[q].q)
+      [] s.k = "asciic" -> Cat([q \in 1..(Len(s.cs) + (IF "z" \in DOMAIN s THEN 1 ELSE 0)) |->
+                                 IF q > Len(s.cs) THEN Plain(<<0>>)                   \* the terminator of '.asciz', once per statement
+                                 ELSE IF "q" \in DOMAIN s.cs[q] THEN Plain(s.cs[q].q)
                                  ELSE IF "u" \in DOMAIN s.cs[q] THEN Plain(Utf8Seq(s.cs[q].u))
                                  ELSE LET x == NumVal(env, s.cs[q].e, i) IN
                                       IF x.st = "err" THEN Bad(<<0>>, x.why = "cycle")
@@ -446,6 +447,7 @@ LayoutAlphabet ==
     DotSet(Bin("+", Dot, Num(5))), [k |-> "insert", len |-> 5], [k |-> "dword", es |-> << Num(66000), Num(-2) >>], Blkw(Num(2)), I1("sob", A),
     Rep(2, << I0("nop"), W(<< Dot >>) >>), Inc(1), Inc(2), W(<<>>), By(<<>>), [k |-> "dword", es |-> <<>>],
     Rep(2, << W(<< B >>), [k |-> "ascii", bs |-> <<72, 105>>] >>), Inc(4),
+    Rep(3, << W(<< B >>), [k |-> "asciic", cs |-> << [q |-> <<97, 98>>], [q |-> <<99>>] >>, z |-> TRUE], W(<< Dot >>) >>),     \* .asciz "ab" "c" in every copy
     [k |-> "asciic", cs |-> << [q |-> <<97, 98, 99>>], [e |-> Sym("n")], [q |-> <<100, 101>>], [e |-> Sym("n")], [e |-> Bin("+", Sym("n"), Num(7))] >>],
     [k |-> "asciic", cs |-> << [u |-> <<1078, 1091>>], [e |-> Sym("n")] >>] }
 RelocAlphabet ==       \* C09: even-sized statements; absolute (#a, @#b, .word a) and relative (a, br a) references
